@@ -764,7 +764,11 @@ func (sc *scn) compare(k groupKey, g *group, ev *retx) {
 	// prefer the packet the requests designate, else the most recent one with that number
 	ref := cands[len(cands)-1]
 	for _, q := range g.reqs {
-		if q.cand != nil {
+		// ... if it had been sent when this retransmission was written: a request stays open
+		// while its NACK is being served, and the same 16-bit number may be sent again (a cycle
+		// later) inside that interval - that later packet cannot be what was retransmitted before
+		// it existed (false alarm, thorough tier seed 4, 1 case in 120 000)
+		if q.cand != nil && q.cand.s0 != never && q.cand.s0 < ev.e0 {
 			ref = q.cand
 		}
 	}
